@@ -9,7 +9,7 @@ Anchors: `HTTP1Connection._read_message` (incl. its `finally`), `_read_body`, `_
 
 Level of abstraction: bytes are counted, not inspected.  A request is its header-block length, the
 factors `_can_keep_alive` looks at, and the list of reads the body reader will perform
-(`Seg.atom n` = a read that needs all `n` bytes: chunk-size line, CRLF; `Seg.data n` = `n` payload bytes
+(`Seg.line n` = `read_until(CRLF, max_bytes=64)` of an `n`-byte chunk-size line, `Seg.atom n` = `read_bytes(n)`; `Seg.data n` = `n` payload bytes
 read with `partial=True`; `Seg.err` = the reader raises `HTTPInputError` here).  The application is a
 *script* per request (what `headers_received` / `data_received` / `finish` do) plus the events
 `resH`, `resD`, `respond` through which pending application awaitables settle and deferred responses
@@ -21,7 +21,7 @@ open TornadoModel.C03 (Method Resp ConnOut Framing)
 
 /-! ### static description of a case -/
 
-inductive Seg | atom (n : Nat) | data (n : Nat) | err
+inductive Seg | atom (n : Nat) | line (n : Nat) | data (n : Nat) | err
   deriving DecidableEq, Repr, Inhabited
 
 inductive HMode | sync | async | detach | early | raise
@@ -80,6 +80,7 @@ structure Stream where
   closed : Bool := false
   hasCb : Bool := false   -- stream close callback = `HTTP1Connection._on_connection_close`
   cbQ : Bool := false     -- that callback was scheduled by `_signal_closed`
+  maxb : Nat := 0         -- `_read_max_bytes` left behind by the last `read_until*` (never reset by IOStream)
   deriving DecidableEq, Repr, Inhabited
 
 inductive Need | atom (n : Nat) | data (n : Nat) | never
@@ -122,8 +123,11 @@ def Stream.tryRead (s : Stream) (nd : Need) : Stream × RR :=
 def Stream.onReadable (s : Stream) (rd : Option Need) : Stream × Option RR :=
   match rd with
   | none =>
-    let s1 := if 0 < s.pend then s.pull else if s.eof then s.close else s
-    (if s1.closed then s1 else { s1 with listen := s1.buf == 0 }, none)
+    -- `_read_to_buffer_loop` with no read pending: target = `_read_max_bytes` (stale), so it keeps reading until
+    -- that many bytes are buffered or the transport has nothing more — and then notices an EOF
+    let s1 := s.pull
+    let s2 := if (s.pend == 0 || s1.buf < s.maxb) && s1.eof then s1.close else s1
+    (if s2.closed then s2 else { s2 with listen := s2.buf == 0 }, none)
   | some nd =>
     let s1 := s.pull
     match sat nd s1.buf with
@@ -202,7 +206,7 @@ def go (cfg : Cfg) : Nat → Lbl → St → St
       -- conn = HTTP1Connection(...); delegate.start_request; read_until_regex
       let st := St.emit { st with c := {}, needClose := false, segs := [] } (.start st.cur)
       let nd := match cfg.req? st.cur with | some r => Need.atom r.hlen | none => Need.never
-      match st.s.tryRead nd with
+      match Stream.tryRead { st.s with maxb := 65536 } nd with
       | (s, .got _) => go cfg fuel .parsed { st with s := s }
       | (s, .block) => { st with s := s, pc := .rdHeaders }
       | (s, .closed) => go cfg fuel .exit { st with s := s }
@@ -237,6 +241,11 @@ def go (cfg : Cfg) : Nat → Lbl → St → St
       | .err :: _ => go cfg fuel .err400 st
       | .atom n :: rest =>
         match st.s.tryRead (.atom n) with
+        | (s, .got _) => go cfg fuel .body { st with s := s, segs := rest }
+        | (s, .block) => { st with s := s, pc := .rdBody }
+        | (s, .closed) => go cfg fuel .excClosed { st with s := s }
+      | .line n :: rest =>
+        match Stream.tryRead { st.s with maxb := 64 } (.atom n) with
         | (s, .got _) => go cfg fuel .body { st with s := s, segs := rest }
         | (s, .block) => { st with s := s, pc := .rdBody }
         | (s, .closed) => go cfg fuel .excClosed { st with s := s }
@@ -298,6 +307,7 @@ def pendingRead (cfg : Cfg) (st : St) : Option Need :=
   | .rdBody =>
     match st.segs with
     | .atom n :: _ => some (.atom n)
+    | .line n :: _ => some (.atom n)
     | .data n :: _ => some (.data n)
     | _ => none
   | _ => none
@@ -313,6 +323,7 @@ def resumeRead (cfg : Cfg) (st : St) (m : Nat) : St :=
   | .rdBody =>
     match st.segs with
     | .atom _ :: rest => go cfg F .body { st with segs := rest }
+    | .line _ :: rest => go cfg F .body { st with segs := rest }
     | .data n :: rest =>
       let st := { st with segs := if n ≤ m then rest else .data (n - m) :: rest }
       if st.c.wf then go cfg F .body st
